@@ -142,6 +142,21 @@ pub fn exec(op: &str, a: &[Vec<u8>]) -> Out {
         "ed.history" => history(&a[0], &a[1], false),
         #[cfg(curve25519_dalek_verif)]
         "ed.history_coords" => history(&a[0], &a[1], true),
+        // [points (n x 32)] -> compress(sum by reference) || compress(sum by value): long collections
+        "ed.sum_many" => {
+            if a[0].len() % 32 != 0 {
+                return Out::Rej;
+            }
+            let mut v = vec![];
+            for c in a[0].chunks(32) {
+                v.push(need!(pt(c)));
+            }
+            let s1: EdwardsPoint = v.iter().sum();
+            let s2: EdwardsPoint = v.into_iter().sum();
+            let mut o = s1.compress().to_bytes().to_vec();
+            o.extend_from_slice(s2.compress().as_bytes());
+            Out::Ok(o)
+        }
         "ed.consts" => {
             let mut o = vec![];
             o.extend_from_slice(curve25519_dalek::constants::ED25519_BASEPOINT_POINT.compress().as_bytes());
